@@ -20,7 +20,7 @@ INITIAL_MISS = {'C01-1': 'provider function _increment_parent_descriptor_version
                 'C07-3': 'only the branch of _update_corresponding_state with the state inside the transaction was under contract; the copy branch was not',
                 'C08-4': 'on_renew_request was only checked for unknown identifiers, not for the content / order of the answer',
                 'C09-3': 'reported as undecided (exit 2): obligations were attached to the notification calls, so an iteration that never reaches the Fail report produced no obligation'}
-for d in sorted(os.listdir(ROOT)):
+for d in sorted(x for x in os.listdir(ROOT) if not x.startswith("_")):
     p = os.path.join(ROOT, d)
     if not os.path.isdir(p):
         continue
